@@ -12,4 +12,6 @@ mkdir -p .cache
 ( cd harness/storage_harness && RUSTFLAGS="--cfg gecs_verif" cargo build --offline --profile dev --target-dir ../../.cache/target-default ) || echo "setup: harness (dev) build failed"
 ( cd harness/storage_harness && RUSTFLAGS="--cfg gecs_verif" cargo build --offline --profile fastrel --features events,wrapping_version --target-dir ../../.cache/target-events-wrapping_version ) || echo "setup: harness (fastrel) build failed"
 ( cd harness/storage_harness && RUSTFLAGS="--cfg gecs_verif" cargo build --offline --profile fastrel --target-dir ../../.cache/target-default ) || echo "setup: harness (fastrel, no features) build failed"
+[ -f harness/macro_drive/Cargo.lock ] || cp /repo/Cargo.lock harness/macro_drive/Cargo.lock
+( cd harness/macro_drive && cargo build --offline --target-dir ../../.cache/target-macro ) || echo "setup: macro_drive build failed"
 echo "setup done"
